@@ -319,6 +319,9 @@ type Property[C any] struct {
 	// Pre runs before the generated search (exhaustive enumerations); it returns a failing case
 	// and its findings, or no findings.
 	Pre func(ev *Evid) (C, []Finding)
+	// NoteCases: write each case next to the evidence file before running it (for properties whose code
+	// under test starts goroutines: a panic there kills the process and the driver needs the case).
+	NoteCases bool
 	// Trim optionally cuts a failing case down before it is saved (e.g. drop the operations after
 	// the failing step); the trimmed case is saved only if it still fails.
 	Trim func(c C) C
@@ -506,6 +509,9 @@ func RunProperty[C any](t *testing.T, p Property[C]) {
 		curT = t
 		rapid.Check(t, func(rt *rapid.T) {
 			c := p.Gen(rt)
+			if p.NoteCases {
+				noteCaseInFlight(c)
+			}
 			fs, _ := ev.filterKnown(safeRun(p, c, ev))
 			ev.invocations++
 			if len(ev.samples) == 0 && ev.invocations == 50 {
@@ -531,6 +537,16 @@ func RunProperty[C any](t *testing.T, p Property[C]) {
 		// rapid stops at the test deadline and still prints OK; fewer cases than requested is inconclusive
 		status = "short"
 		fmt.Printf("VERIF-SHORT property=%s evaluated=%d requested=%d\n", p.ID, got, requested)
+	}
+}
+
+// noteCaseInFlight records the case about to run next to the evidence file: if a goroutine started by
+// the code under test panics, the whole test process dies and the driver builds the replay from it.
+func noteCaseInFlight(c interface{}) {
+	if out := os.Getenv("VERIF_EVID_OUT"); out != "" {
+		if b, err := json.Marshal(c); err == nil {
+			os.WriteFile(out+".lastcase", b, 0644)
+		}
 	}
 }
 
